@@ -29,6 +29,9 @@ EXPLANATION = ('c27_eval_exact / c27_converted: unbounded Coq theorems that the 
                '*_refuted and *_orig theorems document the defects of the earlier evaluator and typing rule. The '
                'EnumType branch of eval_binop is translated too (c27_enum_branch_same_operators: the same operators as '
                'the integer branch); enum-typed operands are otherwise covered by search in every constant context. '
+               'c27_enum_values_exact / c27_enum_values_no_internal: CContext._calculate_enum_values (Model/CEnum.v, tie H) '
+               'gives every enumeration constant its C11 6.7.2.2 value (Spec/CEnumSpec.v) for every enumerator list and '
+               'diagnoses exactly the values not representable as int. '
                'sizeof, floating constants, pointers in constant expressions are not modelled.')
 TRUSTED = ['tools/py2coq.py + the op_map extractor in tools/props/c27.py (fail-closed, cross-checked per run)',
            'hand models Model/CEval.v, Model/CSema.v (cross-checked per run against the real typed AST and the real '
@@ -504,6 +507,112 @@ def enum_operands(ctx, stats, deep):
     stats['enum_operand_programs'] = n
 
 
+# ------------------------------------------------------------------ enumerator values (CContext._calculate_enum_values)
+def real_enum_values(march, src):
+    """values of the constants of the enum type of the declared object `x`, in declaration order, through
+    CContext.get_enum_value -> _calculate_enum_values; plus the typed ASTs of the defining expressions"""
+    from ppci.lang.c import COptions
+    from ppci.lang.c.context import CContext
+    from ppci.lang.c.builder import _parse
+    from ppci.common import CompilerError
+    context = CContext(COptions(), arch_info(march))
+    asts = None
+    try:
+        unit = _parse(io.StringIO(src), 'x.c', context)
+        typ = [d.typ for d in unit.declarations if getattr(d, 'name', None) == 'x'][0]
+        asts = [None if k.value is None else export_ast(k.value) for k in typ.constants]
+        return OkV([context.get_enum_value(typ, k) for k in typ.constants]), asts, ''
+    except CompilerError as ex:
+        return Diag, asts, 'CompilerError: %s' % ex.msg
+    except RecursionError:
+        return Internal, asts, 'RecursionError'
+    except Exception as ex:   # noqa: BLE001
+        return Internal, asts, '%s: %s' % (type(ex).__name__, str(ex)[:100])
+
+
+def enum_value_cases(ctx, n_per_target):
+    """[(march, [None | tree], C source)]: enumerator lists with and without defining expressions, values around
+    INT_MIN / INT_MAX (so that `previous + 1` and explicit values leave the range of int)"""
+    rng = ctx.rng
+    out = []
+    for march in TARGETS:
+        dm, _, _ = target_dm(march)
+        hi = S.limits(dm, 'int')[1]
+        pool = [('lit', 'int', hi), ('lit', 'int', hi - 1), ('un', '-', ('lit', 'int', hi)),
+                ('bin', '-', ('un', '-', ('lit', 'int', hi)), ('lit', 'int', 1)), ('lit', 'uint', hi + 1),
+                ('lit', 'llong', hi + 1), ('un', '-', ('lit', 'llong', hi + 2)), ('lit', 'int', 0),
+                ('bin', '/', ('un', '-', ('lit', 'int', 7)), ('lit', 'int', 2)),
+                ('bin', '%', ('un', '-', ('lit', 'int', 7)), ('lit', 'int', 3))]
+        fixed = [[('lit', 'int', hi), None], [pool[3], None, None], [None, None, None], [pool[4]], [pool[6], None],
+                 [('lit', 'int', hi - 1), None, None]]
+        for i in range(n_per_target):
+            if i < len(fixed):
+                l = fixed[i]
+            else:
+                l = []
+                for _ in range(rng.randint(1, 5)):
+                    r = rng.random()
+                    l.append(None if r < 0.45 else rng.choice(pool) if r < 0.7 else
+                             S.gen_defined(rng, dm, rng.randint(1, 3), types=['int', 'uint', 'long'], small=True))
+            src = 'enum E { %s } x;' % ', '.join('K%d' % j if e is None else 'K%d = %s' % (j, S.render(dm, e))
+                                                  for j, e in enumerate(l))
+            out.append((march, [None if e is None else S.desugar(dm, e) for e in l], src))
+    return out
+
+
+def enum_values(ctx, n_per_target):
+    """correspondence Model.CEnum.enum_values = CContext._calculate_enum_values (values, diagnostic) and elab = typed
+    AST of the defining expressions; search: the implementation against the C11 6.7.2.2 rule evaluated in Python"""
+    cases = enum_value_cases(ctx, n_per_target)
+    cc, recs = [], []
+    stats = {'lists': len(cases), 'ok': 0, 'diag': 0, 'internal': 0, 'undefined': 0, 'violations': 0}
+    for march, l, src in cases:
+        dm, cctx, _ = target_dm(march)
+        out, asts, detail = real_enum_values(march, src)
+        ctx.cov['evaluations'] += 1
+        stats['ok' if isinstance(out, OkV) else 'diag' if out is Diag else 'internal'] += 1
+        cc.append(('enum_values %s [%s]' % (cctx, '; '.join(
+            'None' if e is None else 'Some (elab %s %s)' % (cctx, S.coq_expr(e)) for e in l)), out))
+        recs.append((march, src, detail))
+        for e, a in zip(l, asts or []):
+            if e is not None and a is not None:
+                cc.append(('elab %s %s' % (cctx, S.coq_expr(e)), a))
+                recs.append((march, src, 'typed AST of a defining expression'))
+        # independent oracle: explicit value, else previous + 1 (first 0); all representable as int, else diagnostic
+        exp, nxt = [], 0
+        for e in l:
+            v = nxt if e is None else S.ev(dm, e)
+            if v is None:
+                exp = None
+                break
+            if not S.fits(dm, 'int', v):
+                exp = Diag
+                break
+            exp.append(v)
+            nxt = v + 1
+        if exp is None:
+            stats['undefined'] += 1
+            continue
+        good = (out is Diag) if exp is Diag else (isinstance(out, OkV) and out.v == exp)
+        if not good:
+            stats['violations'] += 1
+            ctx.violation({'fn': 'CContext._calculate_enum_values', 'args': [march, src],
+                           'expected': 'diagnostic (value not representable as int)' if exp is Diag else exp,
+                           'actual': out.v if isinstance(out, OkV) else (detail or str(out)),
+                           'how_to_replay': 'parse %r for %s with ppci.lang.c.builder._parse and read '
+                                            'context.get_enum_value(typ, k) for the constants of enum E' % (src, march)})
+        elif len(l) > 1 or any(e is not None and S.size(e) > 1 for e in l):
+            ctx.cov['distinct_nontrivial'] += 1
+    ctx.cov['stages']['enum_values'] = stats
+    ctx.note_sample({'target': cases[-1][0], 'program': cases[-1][2]})
+    bad = ctx.run_cases('cenum', ['Spec.CIntSpec', 'Model.CEval', 'Model.CSema', 'Model.CEnum'], cc)
+    if bad:
+        for i in bad[:5]:
+            ctx.log('enum model/implementation disagree:', recs[i])
+        ctx.failed_stages.append(('correspondence', 'Model.CEnum disagrees with CContext._calculate_enum_values on %d '
+                                  'cases, first: %r' % (len(bad), recs[bad[0]])))
+
+
 def spec_cross_check(ctx, cases):
     """the Python oracle used by the search equals the Coq Spec (value and type) on the generated trees"""
     cc = []
@@ -546,13 +655,14 @@ def run(ctx):
     fixed = is_fixed_tree()
     ctx.cov['stages']['tree'] = 'fixed (fixes/C27-*.diff applied)' if fixed else 'UNFIXED evaluator'
     regen(ctx)            # TieBroken on the unfixed tree (c_div/c_rem/c_wrap missing) -> driver calls search()
-    ok, _ = ctx.build(['Proofs/C27_ceval.vo'])
+    ok, _ = ctx.build(['Proofs/C27_ceval.vo', 'Proofs/C27_enum.vo'])
     if ok:
         ctx.check_props('Props/C27.v')
     deep = not ctx.quick()
     cases = gen_cases(ctx, 500 if deep else 110, 5)
-    if ctx.build(['Model/CSema.vo', 'Model/CEvalOrig.vo', 'Lib/Val.vo'])[0]:
+    if ctx.build(['Model/CSema.vo', 'Model/CEvalOrig.vo', 'Model/CEnum.vo', 'Lib/Val.vo'])[0]:
         correspondence(ctx, cases, True)
+        enum_values(ctx, 150 if deep else 40)
         spec_cross_check(ctx, cases[:: 2])
     for c in cases[:: max(1, len(cases) // 8)]:
         ctx.note_sample({'target': c[0], 'program': c[3]})
@@ -572,7 +682,8 @@ MANIFEST = {
     'note': 'trusted: Coq kernel; py2coq + op_map extractor (helpers and operator lambdas regenerated from eval.py per run); '
             'hand models of eval_expr/pack (Model/CEval.v) and of CSemantics typing (Model/CSema.v), cross-checked per run '
             'against the real typed AST and the real global image; the reading of C11 in Spec/CIntSpec.v (validated against '
-            'gcc on LP64 per run). Not modelled: sizeof, enum constants, floats, pointers/addresses in initializers; '
-            'enumerators, array sizes and case labels are covered by search only. No axioms.',
+            'gcc on LP64 per run). Enumerator values: CContext._calculate_enum_values is modelled (Model/CEnum.v, correspondence per run) and '
+            'proved against C11 6.7.2.2 (c27_enum_values_exact). Not modelled: sizeof, enum constants as operands, floats, '
+            'pointers/addresses in initializers; array sizes and case labels are covered by search only. No axioms.',
     'technique': 'Coq proof over regenerated operator tables + hand model with differential correspondence',
 }
